@@ -25,6 +25,7 @@ var streamsCommon = []Stream{
 	{Labels: map[string]string{"job": "j", "a": "y", "b": "1"}, Type: 0, FP: 103}, // type "both"
 	{Labels: map[string]string{"job": "j", "a": "x", "b": "1"}, Type: 2, FP: 101}, // a metric series with the label set (hence fingerprint) of stream 0: its samples are never part of a LogQL result
 	{Labels: map[string]string{"job": "o", "a": "x", "b": "1"}, Type: 1, FP: 105}, // not selected by {job="j"}
+	{Labels: map[string]string{"job": "j", "a": "x"}, Type: 1, FP: 106},           // a stream without label b (has entries only in L7)
 }
 
 type poolEntry struct {
@@ -434,6 +435,9 @@ func generate(thorough bool, sel func(int) bool, count bool) *generator {
 	// ---------------- L6 ----------------
 	g.compositions()
 
+	// ---------------- L7 ----------------
+	g.groupingCompositions(maxEntries)
+
 	// ---------------- L5 ----------------
 	g.special(serFam, timeFam)
 
@@ -562,6 +566,71 @@ func (g *generator) compositions() {
 			for _, st := range steps {
 				for _, d := range fam.dbs[r] {
 					g.add("L6", &qq, d, window{0, 10}.params(r, st), false)
+				}
+			}
+		}
+	}
+}
+
+// groupingCompositions (L7): groupings compose — (clause on the unwrapped range function) x (clause on the vector
+// aggregation) over {none, by(L), without(L)} with L in {{a}, {a,b}, {b}} (inner list a subset, a superset, disjoint
+// from, equal to the outer one), in prefix and suffix position, x {sum, max, count}.  An inner `without` also names
+// the unwrapped label v, so that the series identity is explicit (the ungrouped / without-v-less form is the known
+// unwrap-identity finding).  Databases: every subset of <= 3 (thorough <= 4) entries of four streams — two differing
+// only in b, one differing in a, one WITHOUT label b — at one position in each of two buckets, distinct values.
+func (g *generator) groupingCompositions(maxEntries int) {
+	ranges := []int{5}
+	if g.thorough {
+		ranges = []int{5, 15}
+	}
+	pool := []poolEntry{
+		{0, 2, 5, 0, `{"v":1}`}, {0, 6, 5, 0, `{"v":16}`},
+		{1, 2, 5, 0, `{"v":2}`}, {1, 6, 5, 0, `{"v":32}`},
+		{2, 2, 5, 0, `{"v":4}`}, {2, 6, 5, 0, `{"v":64}`},
+		{5, 2, 5, 0, `{"v":8}`}, {5, 6, 5, 0, `{"v":128}`},
+	}
+	fam := buildFamily("grouping", pool, maxEntries, []int{5, 15}, true)
+	lists := [][]string{{"a"}, {"a", "b"}, {"b"}}
+	inner := func(suffix bool) []*Grouping {
+		out := []*Grouping{nil}
+		for _, l := range lists {
+			out = append(out, by(suffix, l...))
+		}
+		for _, l := range lists {
+			out = append(out, without(suffix, append([]string{"v"}, l...)...))
+		}
+		return out
+	}
+	outer := func(suffix bool) []*Grouping {
+		out := []*Grouping{nil}
+		for _, l := range lists {
+			out = append(out, by(suffix, l...))
+		}
+		for _, l := range lists {
+			out = append(out, without(suffix, l...), without(suffix, append([]string{"v"}, l...)...))
+		}
+		return out
+	}
+	positions := [][2]bool{{false, false}, {true, true}}
+	if g.thorough {
+		positions = [][2]bool{{false, false}, {true, true}, {false, true}, {true, false}}
+	}
+	seen := map[string]bool{}
+	for _, r := range ranges {
+		for _, agg := range []string{"sum", "max", "count"} {
+			for _, pos := range positions {
+				for _, in := range inner(pos[0]) {
+					for _, out := range outer(pos[1]) {
+						q := &Query{Matchers: selJ, Stages: []Stage{jsonV(), unwrapV()}, Fn: "sum_over_time", RangeS: r, RGroup: in, Agg: agg, AGroup: out}
+						if t := q.String(); seen[t] {
+							continue // `none` has no position: the same text would be generated twice
+						} else {
+							seen[t] = true
+						}
+						for _, d := range fam.dbs[r] {
+							g.add("L7", q, d, window{0, 10}.params(r, int64(r)*1000), false)
+						}
+					}
 				}
 			}
 		}
